@@ -48,10 +48,12 @@ SubShown(i) ==      \* within-word transition i of the main automaton
      /\ \A a \in { sd.acc[j] : j \in 1..Len(sd.acc) } : \E e \in Edges : e.dashed /\ e.fp = p /\ e.fn = a + AS /\ e.tp = "" /\ e.tn = tr.t + AS
 SubTr == { i \in 1..Len(O.min.tr) : O.min.tr[i].l.k = "sub" }
 
-\* --regex: every literal of the grammar's resolved expression occurs in some node label, and every node drawn carries a label
+\* --regex: every literal and every command text of the automaton occurs in some node label, and every node drawn carries a label
 Texts == { O.min.tr[i].l.cp : i \in { j \in 1..Len(O.min.tr) : O.min.tr[j].l.k = "lit" } } \cup
          UNION { { O.minsubs[s].tr[i].l.cp : i \in { j \in 1..Len(O.minsubs[s].tr) : O.minsubs[s].tr[j].l.k = "lit" } } : s \in 1..Len(O.minsubs) }
 RegexShows == \A t \in Texts : \E i \in 1..Len(O.regex.labels) : Contains(O.regex.labels[i], t)
+CmdTexts == { O.cmdcps[i] : i \in 1..Len(O.cmdcps) }
+RegexShowsCmds == \A t \in CmdTexts : \E i \in 1..Len(O.regex.labels) : Contains(O.regex.labels[i], t)
 
 Problems ==
   (IF ~G.ok THEN {"dfa_file_not_valid_dot"} ELSE
@@ -59,7 +61,7 @@ Problems ==
      (IF \E i \in SubTr : ~SubShown(i) THEN {"dfa_within_word_automaton_not_shown"} ELSE {}) \cup
      (IF Cardinality(Prefixes) # Len(O.minsubs) THEN {"dfa_cluster_count"} ELSE {})) \cup
   (IF ~O.regex.ok THEN {"regex_file_not_valid_dot"}
-   ELSE (IF ~RegexShows THEN {"regex_item_missing"} ELSE {}) \cup (IF O.regex.unlabelled > 0 THEN {"regex_unlabelled_node"} ELSE {}))
+   ELSE (IF ~RegexShows THEN {"regex_item_missing"} ELSE {}) \cup (IF ~RegexShowsCmds THEN {"regex_command_missing"} ELSE {}) \cup (IF O.regex.unlabelled > 0 THEN {"regex_unlabelled_node"} ELSE {}))
 Report == Problems = {} \/ PrintT(<<"MISMATCH", ToJson([id |-> Cases[case].id, problems |-> Problems])>>)
 Seen == PrintT(<<"VALIDATED", Cases[case].id>>)
 =======================================================================
